@@ -18,7 +18,9 @@ MAXU = (1 << 64) - 1
 
 def generate(rng, tier):
     cases = []
-    seeds = [None, None, 0, 42, MAXU, MAXU - 2, rng.getrandbits(64)]
+    # incl. seeds around 2^63 and 2^64: a role-dependent derivation (acceptance vs proposal generator) can make the two
+    # seed windows meet exactly there
+    seeds = [None, None, 0, 42, MAXU, MAXU - 1, MAXU - 2, (1 << 63) - 2, (1 << 63) - 3, (1 << 63) - 1, 1 << 63, rng.getrandbits(64)]
     if tier == "thorough":
         seeds += [rng.getrandbits(64) for _ in range(20)] + [None] * 5
     for s in seeds:
